@@ -1,11 +1,17 @@
 """C13 — dataflow solvers reach the least fixpoint; lattices obey their laws.
 
-Lean: Verif/C13/{Model,LatLemmas,DenseLemmas,SparseLemmas,MapLemmas,Theorems}.lean.
-  dense  : dense.Forward/propagate as a transition system (queue = set, any schedule):
-           dense_fixpoint, dense_least, dense_schedule_independent, dense_terminates,
-           dense_run_length, dense_run_terminal
+Lean: Verif/C13/{Model,LatLemmas,DenseLemmas,SparseLemmas,MapLemmas,Repr,ReprInst,Theorems}.lean.
+  dense  : dense.Forward/propagate as a transition system (state = in/out/dirty/queue; queue = set,
+           ANY schedule, the nodeHeap order being one): dense_fixpoint, dense_least,
+           dense_schedule_independent, dense_terminates, dense_run_length, dense_run_terminal,
+           dense_forward_least_fixpoint (all of Forward in one statement), dense_edge_api;
+           for lattices whose Equals is coarser than equality (DenseMapLattice, MapLattice) the same
+           up to Equals by a step-by-step simulation (Repr): dense_fixpoint_upto, dense_least_upto,
+           dense_terminates_upto, dense_run_terminal_upto, dense_forward_upto, dm_repr, map_repr,
+           dense_forward_densemap, dense_forward_map, dense_forward_nilness (nilness.go's instance)
   sparse : sparse.Instance.Forward likewise: sparse_fixpoint, sparse_least,
-           sparse_schedule_independent, sparse_terminates, sparse_run_terminal
+           sparse_schedule_independent, sparse_terminates, sparse_run_terminal,
+           sparse_forward_least_fixpoint
   lattices: map_lattice_laws, map_merge_no_panic, dense_map_lattice_laws, nilness_laws
            (kernel `decide` over the table REGENERATED from the current tree),
            nilness_lattice_lawful
@@ -15,7 +21,7 @@ Tie X: generated graphs x transfer families through the real dense.Forward (thre
   adapters = the three paths of graph.Compact; facts in uint64 / DenseMapLattice / MapLattice
   / the real nilness lattice) and generated Go functions through the real IR builder and the
   real sparse.Instance.Forward with table-driven monotone transfers; each result is compared
-  with the Lean model (run under a different schedule) and with the
+  with the Lean model (run under a different schedule) and with the oracle.
 Oracle: the property itself on the real output — every equation of the fixpoint holds and the
   result equals the least fixpoint computed here by naive Kleene iteration; the lattice laws
   are evaluated with the real Merge/Equals on all triples of generated elements (all 25
@@ -57,6 +63,7 @@ THEOREMS = [
     "Verif.C13.dense_map_lattice_laws",
     "Verif.C13.nilness_laws",
     "Verif.C13.nilness_lattice_lawful",
+    "Verif.C13.dense_forward_nilness",
 ]
 
 GENERATED = os.path.join(vlib.LEAN_DIR, "Verif", "C13", "Generated.lean")
@@ -227,8 +234,10 @@ def gen_dense(rng, fams, big):
         c.n = 1 + rng.below(4)
     elif r < 85:
         c.n = 5 + rng.below(4)
-    else:
+    elif r < 99:
         c.n = 9 + rng.below(8 if big else 4)
+    else:
+        c.n = 60 + rng.below(80)  # beyond one 64-bit word of nodeHeap.inQueue
     n = c.n
     shape = rng.choice(["random", "random", "sparse", "dense", "chain", "islands", "irreducible"])
     edges = []
@@ -371,8 +380,10 @@ def kleene_dense(c, fam):
     rounds = 0
     while True:
         rounds += 1
-        if rounds > 100000:
-            raise vlib.HarnessError("kleene_dense does not converge (generator produced a non-monotone case?)")
+        if rounds > 5000:
+            # only possible when the element lattice is not a semilattice (changed nilness table)
+            # or a generated transfer is not monotone; the caller decides which
+            return None, None, rounds
         ch = False
         for b in range(n):
             if preds[b]:
@@ -608,8 +619,8 @@ def kleene_sparse(fam, n, nvals, ins, val0, tb):
     rounds = 0
     while True:
         rounds += 1
-        if rounds > 100000:
-            raise vlib.HarnessError("kleene_sparse does not converge")
+        if rounds > 5000:
+            return None
         ch = False
         for i in range(n):
             d = sparse_eval(fam, ins, tb, val, i)
@@ -633,6 +644,9 @@ def sparse_oracle_worker(args):
         fam = sparse_fam(lat, table)
         real = [int(x) for x in r[len("val="):].split(",")]
         lfp = kleene_sparse(fam, n, nvals, ins, val0, tb)
+        if lfp is None:
+            res.append(("noconv", dump))
+            continue
         bad = []
         for i in range(n):
             d = sparse_eval(fam, ins, tb, real, i)
@@ -758,6 +772,10 @@ def run(ctx):
     else:
         safe = table
     fams = families(safe)
+    R5 = range(5)
+    table_lawful = table_closed and all(
+        safe[a][safe[b][c]] == safe[safe[a][b]][c] and safe[a][b] == safe[b][a] and safe[a][a] == a and safe[a][0] == a
+        for a in R5 for b in R5 for c in R5)
 
     violations = []      # (name, obj, text)
     corr = []            # model != implementation, oracle fine
@@ -837,7 +855,7 @@ def run(ctx):
 
     phase("lattice_laws")
     # ---------------------------------------------------------------- dense
-    n_dense = 5000 if ctx.quick else 150000
+    n_dense = 3000 if ctx.quick else 150000
     corpus_cases = []
     cpath = os.path.join(CORPUS, "dense.txt")
     if os.path.exists(cpath):
@@ -877,9 +895,16 @@ def run(ctx):
         bump("dense:lat=" + c.lat)
         bump("dense:impl=" + c.impl + "/" + c.ids)
         bump("dense:shape=" + tag)
-        bump("dense:n=%s" % ("1-4" if c.n <= 4 else "5-8" if c.n <= 8 else "9+"))
+        bump("dense:n=%s" % ("1-4" if c.n <= 4 else "5-8" if c.n <= 8 else "9-16" if c.n <= 16 else "60+"))
         for f in feats:
             bump("dense:feature=" + f)
+        if inn is None:
+            # Kleene iteration did not converge: legitimate only over a nilness table that is not a
+            # semilattice (then the law check above has already produced the violation)
+            if table_lawful or c.lat != "nil":
+                raise vlib.HarnessError("kleene_dense does not converge (generator produced a non-monotone case?): " + gl)
+            bump("dense:skipped-unlawful-table")
+            continue
         if m == "bad-op":
             raise vlib.HarnessError("model rejected line: " + gl)
         if g.startswith("bad-op") or g == "skipped":
@@ -918,7 +943,7 @@ def run(ctx):
 
     phase("dense_compare")
     # ---------------------------------------------------------------- sparse
-    n_sparse = 1000 if ctx.quick else 30000
+    n_sparse = 600 if ctx.quick else 30000
     sp_lines, sp_srcs = [], []
     spath = os.path.join(CORPUS, "sparse.txt")
     if os.path.exists(spath):
@@ -960,6 +985,11 @@ def run(ctx):
                 continue
             replay_obj["what"] = "the real sparse.Instance.Forward did not return a result: " + g
             violations.append(("sparse_noresult.json", replay_obj, "C13 sparse: %s" % g))
+            continue
+        if r[0] == "noconv":
+            if table_lawful or r[1].split()[1] != "n5":
+                raise vlib.HarnessError("kleene_sparse does not converge: " + r[1])
+            bump("sparse:skipped-unlawful-table")
             continue
         _, dump, real, lfp, bad, wf, n, nphi = r
         bump("sparse:lat=" + dump.split()[1])
@@ -1006,13 +1036,19 @@ def run(ctx):
         "phase_seconds": phases,
     })
     ctx.assumptions += [
-        "Equals is modelled as equality of lattice elements: for MapLattice/DenseMapLattice facts the model works on canonical "
-        "k-vectors (the quotient by Equals; map_lattice_laws / dense_map_lattice_laws prove Equals is an equivalence and a congruence)",
-        "graph.Compact / graph.Index / ReversePostorder / container/heap are not modelled: the model allows any schedule and "
-        "dense_schedule_independent shows the result does not depend on it; the three Compact paths are exercised by the X runs",
-        "transfer functions are monotone (hypothesis Mono); generated transfers are monotone by construction",
-        "sparse: the transfer reads only operand states and maps only the instruction's own value (Dep), use-def chains of the IR "
-        "are consistent (Prog.WF, checked on every dump), no Set on instruction values (InitBot)",
+        "the executable model runs on canonical k-vectors (Equals = equality); that the real DenseMapLattice / MapLattice "
+        "representations (Equals coarser than equality) behave the same step by step is proved (Repr simulation: "
+        "dense_forward_densemap / dense_forward_map / dense_forward_nilness), their Merge/Equals models are tied by the "
+        "lattice-merge correspondence stream",
+        "graph.Compact / graph.Index / ReversePostorder / container/heap are not modelled: every theorem holds for any schedule "
+        "(the heap order is one; dense_schedule_independent); the three Compact paths and graphs beyond 64 nodes (second word "
+        "of the queue bitmap) are exercised by the X runs only",
+        "transfer functions are monotone (hypothesis Mono / MonoE) and, for coarse Equals, keep facts well-formed and respect "
+        "Equals; generated transfers are monotone by construction",
+        "finite height is a hypothesis (Ranked); proved for the nilness lattice (height 3 per component) and for k-vectors",
+        "sparse: Equals = equality (all element types used are comparable), the transfer reads only operand states and maps "
+        "only the instruction's own value (Dep), use-def chains of the IR are consistent (Prog.WF, checked on every dump), "
+        "no Set on instruction values (InitBot)",
         "Python Kleene iteration and the op/table interpreters in checks/c13.py are the oracle and are trusted",
     ]
 
@@ -1057,6 +1093,8 @@ def violation_search(ctx, binp, fams, table, W):
     outs = run_harness(ctx, binp, "dense", [r[0] for r in recs], W)
     for (gl, inn, out, rounds, feats, tag), g in zip(recs, outs):
         c = parse_dense_line(gl)
+        if inn is None:
+            continue
         real = parse_dense_result(g)
         if real is None:
             if g == "skipped":
@@ -1086,6 +1124,9 @@ def replay(ctx, binp, fams, table):
             if real is None:
                 failed.append((gl, g))
                 continue
+            if inn is None:
+                failed.append((gl, "Kleene iteration does not converge over the current nilness table"))
+                continue
             bad = check_dense_equations(c, fams[c.lat], real[0], real[1])
             if not bad and (real[0] != inn or real[1] != out):
                 bad = ["not the least fixpoint"]
@@ -1096,6 +1137,8 @@ def replay(ctx, binp, fams, table):
         for gl, r in zip(lines, sparse_oracle_worker((outs, table))):
             if r[0] == "raw":
                 failed.append((gl, r[1]))
+            elif r[0] == "noconv":
+                failed.append((gl, "Kleene iteration does not converge over the current nilness table"))
             elif r[4] or r[2] != r[3]:
                 failed.append((gl, (r[4] or ["not the least fixpoint"])[0]))
     elif kind == "laws":
@@ -1118,16 +1161,25 @@ def replay(ctx, binp, fams, table):
 
 META = {
     "level": "proof",
-    "technique": "Lean 4 theorems over transition-system models of dense.Forward and sparse.Instance.Forward (any schedule) and "
-                 "of MapLattice/DenseMapLattice; nilness table regenerated from the tree and re-proved by kernel decide; "
-                 "executable correspondence + Kleene-iteration oracle on the real solvers",
-    "text": "dense_fixpoint/least/terminates and sparse_fixpoint/least/terminates are proved for every finite graph (program), every "
-            "lawful semilattice, every monotone transfer and every schedule; map_lattice_laws, dense_map_lattice_laws and nilness_laws "
-            "(over the table regenerated from nilness.go at every check) give the lattice laws. The models are tied to the code by "
-            "running the real dense.Forward / sparse.Forward / lattices on generated graphs, programs and elements and comparing with "
-            "the model and with the least fixpoint computed by naive Kleene iteration.",
+    "technique": "Lean 4 theorems over transition-system models of dense.Forward/propagate and sparse.Instance.Forward (worklist "
+                 "algorithms with dirty flags / referrer re-enqueueing, any schedule) and of MapLattice/DenseMapLattice, plus a "
+                 "simulation theorem carrying the solver results to lattices whose Equals is coarser than equality; nilness "
+                 "table regenerated from the tree and re-proved by kernel decide; executable correspondence + Kleene-iteration "
+                 "oracle on the real solvers",
+    "text": "Proved for every finite graph / program, every lawful semilattice of finite height, every monotone transfer, every "
+            "entry map and every schedule: the worklist loop of dense.Forward and of sparse.Forward terminates (explicit bound), "
+            "its result satisfies in(n) = merge of incoming edge facts (entry fact for nodes without predecessors), "
+            "edge = transfer(in(src)), and lies below every other solution (dense_forward_least_fixpoint, "
+            "sparse_forward_least_fixpoint); the same up to Equals for DenseMapLattice and MapLattice facts "
+            "(dense_forward_densemap, dense_forward_map) and for the exact instance nilness.go uses (dense_forward_nilness). "
+            "map_lattice_laws, dense_map_lattice_laws, nilness_laws (over the table regenerated from nilness.go at every check) give "
+            "associativity, commutativity, idempotence, identity and that Equals is a congruence. Explored, not proved: that the Go "
+            "code is the model (tie X: real dense.Forward over three graph adapters and four fact representations, real "
+            "sparse.Forward on IR built from generated sources, real Merge/Equals; compared with the model and with the least "
+            "fixpoint by Kleene iteration); graph.Compact, ReversePostorder and the heap are covered by schedule independence only.",
     "note": "Trusted: Lean kernel (axioms propext/Classical.choice/Quot.sound), compiled c13driver, harness/cmd/c13run (go:linkname "
-            "access to the unexported nilness lattice, no hook), the Kleene oracle in checks/c13.py. Equals is modelled as equality on "
-            "canonical facts; graph.Compact/heap order are covered by schedule independence, not modelled.",
+            "access to the unexported nilness lattice, no hook), the Kleene oracle in checks/c13.py. Hypotheses of the theorems "
+            "(monotone transfers, finite height, well-formed facts, sparse transfers map their own instruction's value) are "
+            "explicit and each has a non-vacuity example.",
     "design_ref": "DESIGN.md section 5, C13; Appendix B (C13 dense)",
 }
